@@ -492,7 +492,8 @@ pub fn run(ctx: &Ctx) {
         }
         // in-process: for each corpus case, a fresh thread that first compiles a prefix program
         // then the corpus case (thread-local state only; process-global counters are covered above)
-        let prefixes: Vec<usize> = if ctx.quick() { vec![0, 1, 5] } else { (0..np).collect() };
+        // (thorough: 8 prefixes; all 19 x 3.4k x 2 executions took over half an hour)
+        let prefixes: Vec<usize> = if ctx.quick() { vec![0, 1, 5] } else { vec![0, 1, 4, 5, 6, 9, 11, 14] };
         let npre = prefixes.len() as u64;
         par(
             ctx,
@@ -547,18 +548,15 @@ pub fn run(ctx: &Ctx) {
         let mut groups: Vec<(Vec<usize>, usize)> = Vec::new(); // (programs, preemption bound)
         for (ai, a) in alpha.iter().enumerate() {
             for b in &alpha[ai..] {
-                groups.push((vec![*a, *b], ctx.pick(1, 2)));
+                groups.push((vec![*a, *b], 1));
             }
         }
         // deeper bound on the two most interesting pairs
         groups.push((vec![0, 1], ctx.pick(2, 3)));
         if ctx.thorough() {
-            groups.push((vec![5, 5], 3));
-        }
-        if ctx.thorough() {
+            groups.push((vec![5, 5], 2));
             groups.push((vec![0, 1, 5], 1));
             groups.push((vec![5, 6, 0], 1));
-            groups.push((vec![0, 1, 5], 2));
         }
         let nsched = std::sync::atomic::AtomicU64::new(0);
         let interleavings: Mutex<std::collections::BTreeSet<u64>> = Mutex::new(Default::default());
@@ -646,7 +644,7 @@ pub fn run(ctx: &Ctx) {
         ctx.add(sub, "max_scheduling_points_in_one_execution", points_max.load(std::sync::atomic::Ordering::Relaxed));
         ctx.add(sub, "thread_groups", groups.len() as u64);
         ctx.space_wall(sub, t0.elapsed().as_secs_f64());
-        ctx.bound(sub, &format!("all schedules with <= {} preemptions of every unordered pair (incl. self-pairs) of a 6-program alphabet; <= {} preemptions for the identifier pair and the extend pair{}", ctx.pick(1, 2), ctx.pick(2, 3), if ctx.thorough() { "; 3 threads with <= 1 and <= 2 preemptions for two triples" } else { "" }), true);
+        ctx.bound(sub, &format!("all schedules with <= 1 preemption of every unordered pair (incl. self-pairs) of a 6-program alphabet; <= {} preemptions for the identifier pair{}", ctx.pick(2, 3), if ctx.thorough() { "; <= 2 for the extend pair; 3 threads with <= 1 preemption for two triples" } else { "" }), true);
         ctx.sample(sub, json!({"threads": [ps[0].1, ps[1].1], "schedule_choices": "0,0,0,1", "meaning": "at the 4th scheduling point switch to the other thread"}));
         ctx.assume("scheduling points are the three hook sites (interner, complex-selector id, builtin id): the only accesses to process- or thread-global mutable state; between two points a thread runs alone (sequential consistency); once_cell's own initialisation race is trusted (the table is warmed up before the hook is installed)");
     }
@@ -660,9 +658,9 @@ pub fn run(ctx: &Ctx) {
             ctx.machinery("target/seedshim.so missing (setup.sh / check builds it)");
         } else {
             let corp_n = corpus::load().len();
-            let mut seeds: Vec<u64> = (0..ctx.pick(6, 48)).collect();
+            let mut seeds: Vec<u64> = (0..ctx.pick(6, 16)).collect();
             if ctx.thorough() {
-                for k in 0..16 {
+                for k in 0..8 {
                     seeds.push(1000 + ctx.seed.wrapping_mul(16) + k);
                 }
             }
